@@ -38,6 +38,8 @@ def htlc_op(sc, spec, mdl, epoch=0):
     if spec.tlv_amount is not None:
         op['tlv_amount'] = bytes(int(sym.evaluate(b, mdl)) if isinstance(b, T) else b for b in spec.tlv_amount).hex()
     rm = getattr(spec, 'raw_meta', None)
+    if getattr(spec, 'meta_prefix', None):
+        op['meta_prefix'] = [{'typ': str(t), 'value': bytes(v).hex()} for t, v in spec.meta_prefix]
     if spec.extra_payload:
         op['extra_payload'] = [{'typ': str(t), 'value': bytes(int(sym.evaluate(b, mdl)) if isinstance(b, T) else b for b in v).hex()} for t, v in spec.extra_payload]
     if rm is not None:
@@ -142,7 +144,10 @@ def script_from_state(m, sc, v, trail=None):
                               'age_s': str(age), 'attempt_record': cfg.get('pending_has_attempt_record', True)})
                 for i in range(cfg.get('pending_parts', 1)):
                     stt = ('pending', 'complete', 'failed')[ch.get('old.part%d' % i, 0)]
-                    setup.append({'op': 'old_part', 'inv': inv0, 'status': stt})
+                    op_ = {'op': 'old_part', 'inv': inv0, 'status': stt}
+                    if cfg.get('old_parts_in_groups'):
+                        op_.update({'groupid': 1 + i, 'partid': 1})
+                    setup.append(op_)
             elif mode == 'succeeded':
                 setup.append({'op': 'store', 'inv': inv0, 'state': 'succeeded', 'generation': gen0})
                 setup.append({'op': 'old_part', 'inv': inv0, 'status': 'complete'})
@@ -197,6 +202,11 @@ def script_from_state(m, sc, v, trail=None):
                     op['code'] = env.wait_fail_codes[c]
             if mm.group(1) == 'waitsendpay' and 'code' not in op:
                 op['code'] = env.wait_fail_codes[0]
+            try:
+                if mm.group(1) == 'waitsendpay' and env.calls[int(mm.group(2))].info.get('timeout_answer'):
+                    op['code'] = 200
+            except Exception:
+                pass
             if mm.group(1) == 'waitsendpay':
                 # several waits may be outstanding (one per pending part): name the part this answer is for
                 try:
@@ -238,6 +248,8 @@ def script_from_state(m, sc, v, trail=None):
             continue
         if lab == 'CRASH':
             steps.append({'op': 'restart'})
+            # replayed HTLCs may carry changed fields (relative expiry shrunk while the plugin was down)
+            specs = {s_.idx: s_ for s_ in st.roots.get('specs', cfg['htlcs'])}
             continue
         if lab.startswith('poll '):
             if not steps or steps[-1].get('op') != 'settle':
@@ -610,6 +622,24 @@ def j_passthrough(v, script, nat):
             return True, 'rewritten payload %s does not preserve the other records %s' % (r['payload'], exp.hex())
     return False, 'passed through natively: %s' % r
 
+def j_plain_held(v, script, nat):
+    if _pay_events(nat):
+        return True, 'an outgoing payment was started although only a non-trampoline htlc completed the amount'
+    r = _resp(nat, 1)
+    if r is None:
+        return True, 'the plain htlc was not answered (held): waiting %s' % nat.get('still_waiting')
+    if r.get('result') != 'continue':
+        return True, 'the plain htlc was answered with %s, not continue' % r
+    return False, 'the plain htlc was continued natively'
+
+def j_later_self_hint(v, script, nat):
+    r = _resp(nat, 1)
+    if r is None:
+        return True, 'the htlc with the disallowed self route hint was held (not answered): waiting %s' % nat.get('still_waiting')
+    if r.get('result') != 'fail':
+        return True, 'the htlc with the disallowed self route hint was answered with %s, not failed' % r
+    return False, 'failed natively, as expected: %s' % r
+
 def j_timeout(v, script, nat):
     mpp_ms = int(script['config']['mpp_timeout_s']) * 1000
     if _pay_events(nat):
@@ -698,6 +728,8 @@ JUDGES = {
     'wrong-restart-timeout': j_timeout,
     'failed-before-timeout': j_timeout,
     'wrong-response-for-incomplete-set': j_timeout,
+    'plain-htlc-held': j_plain_held,
+    'later-self-hint-accepted': j_later_self_hint,
     'side-effect': j_passthrough,
     'not-continue': j_passthrough,
     'state-retained': j_passthrough,
